@@ -7,6 +7,7 @@ import subprocess
 import tempfile
 import numpy as np
 from hypothesis import strategies as st
+from ..strat import ints
 from .. import matspec, refconn, build
 from ..core import Result, viol, exc_sig, VERIF, jhash
 from . import c10
@@ -29,7 +30,7 @@ BUDGET = {'quick': 16, 'thorough': 300}
 
 @st.composite
 def _case(draw, tier):
-    kind = draw(st.integers(0, 10))
+    kind = draw(ints(0, 10))
     if kind == 10:
         ms = draw(matspec.par_sensitive_spec())
     elif kind < 5:
@@ -38,13 +39,13 @@ def _case(draw, tier):
         ms = draw(matspec.pattern_family_spec())
     else:
         # degenerate: exactly one or no matrix
-        ms = {'src': [{'conns': [draw(st.integers(0, 2))], 'rep': draw(st.booleans())}],
-              'tgt': [{'conns': [draw(st.integers(0, 2))], 'rep': draw(st.booleans())}], 'excl': [], 'par': None,
+        ms = {'src': [{'conns': [draw(ints(0, 2))], 'rep': draw(st.booleans())}],
+              'tgt': [{'conns': [draw(ints(0, 2))], 'rep': draw(st.booleans())}], 'excl': [], 'par': None,
               'patterns': [{'src': {}, 'tgt': {}}]}
     mutate = draw(st.sampled_from(['deg', 'rep', 'excl', 'par', 'pattern']))
     return {'ms': ms, 'timeout': draw(st.sampled_from([10, 10, 0.25, 0.05])),
             'history': draw(st.sampled_from(['cold_warm', 'cold_warm', 'child', 'partial_first'])),
-            'mutate': [mutate, draw(st.integers(0, 50)), draw(st.integers(0, 50))], 'vseed': draw(st.integers(0, 9999)),
+            'mutate': [mutate, draw(ints(0, 50)), draw(ints(0, 50))], 'vseed': draw(ints(0, 9999)),
             # 'lazy_first': the documented class knob n_mat_max_eager lowered to 1, which sends settings of brute-forceable
             # size down the branch that real use only takes above 1000 matrices (lazy encoders first, eager ones later)
             'variant': draw(st.sampled_from(['default', 'default', 'lazy_first']))}
